@@ -20,12 +20,11 @@
                                      the confinement theorems of Cosi.C08 along every program, w.r.t. the accepted declaration
     buffer_write_keeps_access, rejected_update_keeps_access
                                      rewriting a buffer / a rejected UpdateInputs changes no access decision
-    (full strength, does NOT hold of the current qruntime — see q_guards_read_accepted_declaration_partial)
-    q_guards_read_accepted_declaration_partial
-                                     a QController's guards read the declaration of its Settings() as long as the controller
-                                     does not rewrite the slices it returned
-    q_alias_changes_access           kernel-checked: on the CURRENT source a QController that rewrites the slice it returned
-                                     from Settings() reads and finalizes a type it never declared
+    q_guards_read_accepted_declaration  the same for a QController (full strength since the D9 repair: qruntime clones the slices of
+                                     Settings() as rruntime does); q_guards_read_accepted_declaration_partial holds for every rule set
+                                     as long as the controller does not rewrite its buffers
+    q_alias_changes_access           kernel-checked D9 witness: with the caller's slices kept (the tree before the repair) a QController
+                                     that rewrites the slice it returned from Settings() reads and finalizes a type it never declared
     alias_inputs_not_sound, alias_rejected_update_grants_access, alias_buffer_write_grants_access,
     eager_store_rejected_update_grants_access
                                      kernel-checked: with `adapter.Inputs = deps` (no copy), resp. with the store placed before
@@ -51,6 +50,13 @@ theorem genRules_sound_r : Sound genRules .r := by
   have h2 : Gen.Access.declKeep .rOutputs = .clone := by decide
   have h3 : Gen.Access.updateStoresOnSuccessOnly = true := by decide
   exact ⟨h1, h2, h3⟩
+
+/-- the CURRENT qruntime keeps private copies of the slices of Settings() (since the D9 repair: qruntime.go
+    NewAdapter clones both, as rruntime always did) -/
+theorem genRules_sound_q : Sound genRules .q := by
+  have h1 : Gen.Access.declKeep .qInputs = .clone := by decide
+  have h2 : Gen.Access.declKeep .qOutputs = .clone := by decide
+  exact ⟨h1, h2⟩
 
 /-- the in-place sort of the caller's slice is part of the current source (the model's bookkeeping of what a
     later UpdateInputs(buf[:n]) passes rests on it) -/
@@ -264,17 +270,19 @@ theorem q_run_nowrite (r : Rules) (xs : List DOp) : ∀ (s : DSt), s.fl = .q →
     rw [q_step_nowrite r s hfl x h1.1]
     exact ih s hfl h1.2
 
-/-
-  Full strength (the statement of `guards_read_accepted_declaration` for a QController) does NOT hold of the
-  current qruntime:
+/-- **A QController's guards read the declaration of its Settings()** — for EVERY program, buffer rewrites
+    included (full strength; did not hold before the D9 repair, when qruntime kept the caller's slices:
+    `q_alias_changes_access`). -/
+theorem q_guards_read_accepted_declaration (name : String) (bufI : Heap AInput) (bufO : Heap AOutput)
+    (bi ni bo no : Nat) (xs : List DOp) :
+    (AccessDecl.run (register .q name bufI bufO bi ni bo no) xs).eff =
+      (AccessDecl.run (register .q name bufI bufO bi ni bo no) xs).decl := by
+  apply owned_eff
+  apply runWith_owned genRules xs
+  · unfold register; rw [registerWith_fl]; exact genRules_sound_q
+  · exact registerWith_owned genRules .q genRules_sound_q name bufI bufO bi ni bo no
 
-    theorem q_guards_read_accepted_declaration (name bufI bufO bi ni bo no) (xs : List DOp) :
-        (run (register .q name bufI bufO bi ni bo no) xs).eff = (run (register .q name bufI bufO bi ni bo no) xs).decl
-
-  because `Gen.Access.declKeep .qInputs = .alias` and `.qOutputs = .alias` (qruntime.go:115-116 keep the slices of
-  Settings() as they are): see `q_alias_changes_access`. What holds: -/
-
-/-- **partial**: for every rule set (in particular the current source), a QController's guards read the
+/-- for every rule set (even one that keeps the caller's slices), a QController's guards read the
     declaration of its Settings() as long as the controller rewrites none of the buffers -/
 theorem q_guards_read_accepted_declaration_partial (r : Rules) (name : String) (bufI : Heap AInput)
     (bufO : Heap AOutput) (bi ni bo no : Nat) (xs : List DOp) (hx : noWrites xs = true) :
@@ -348,23 +356,33 @@ theorem eager_store_rejected_update_grants_access :
     (AccessDecl.runWith eagerStoreRules (exReg eagerStoreRules) exProg).decl.inputs = [inW1] ∧
     allowed (AccessDecl.runWith eagerStoreRules (exReg eagerStoreRules) exProg).eff .get tgt2 = true := by decide
 
-/-- the queue runtime of the CURRENT source: registered with [T1 q-primary] / [OX]; the controller then rewrites
-    the slices it returned from Settings() -/
-def exRegQ : DSt := register .q "ctl" [[inP1]] [[outX]] 0 1 0 1
+/-- the queue runtime of the tree before the D9 repair: `Inputs: settings.Inputs, Outputs: settings.Outputs` -/
+def aliasQRules : Rules := { goodRules with keep := fun s => if s = .qInputs ∨ s = .qOutputs then .alias else .clone }
 
-theorem current_q_registration_coherent : exRegQ.eff = exRegQ.decl :=
+/-- registered with [T1 q-primary] / [OX]; the controller then rewrites the slices it returned from Settings() -/
+def exRegQ (r : Rules) : DSt := registerWith r .q "ctl" [[inP1]] [[outX]] 0 1 0 1
+
+theorem current_q_registration_coherent : (exRegQ genRules).eff = (exRegQ genRules).decl :=
   q_guards_read_accepted_declaration_partial genRules "ctl" [[inP1]] [[outX]] 0 1 0 1 [] rfl
 
-/-- **negative witness on the current source.** `Gen.Access.declKeep .qInputs = .alias`, `.qOutputs = .alias`: after
-    the rewrite the guards let the QController get and finalize T2 and write type OY, none of which it declared. -/
+def exProgQ : List DOp := [.writeI 0 0 [inM2], .writeO 0 0 [{ typ := "OY", kind := 0 }]]
+
+/-- **D9 witness** (kernel-checked): with the caller's slices kept, after the rewrite the guards let the QController
+    get and finalize T2 and write type OY, none of which it declared. -/
 theorem q_alias_changes_access :
-    Gen.Access.declKeep .qInputs = .alias ∧ Gen.Access.declKeep .qOutputs = .alias ∧
-    (AccessDecl.run exRegQ [.writeI 0 0 [inM2], .writeO 0 0 [{ typ := "OY", kind := 0 }]]).decl.inputs = [inP1] ∧
-    allowed (AccessDecl.run exRegQ [.writeI 0 0 [inM2], .writeO 0 0 [{ typ := "OY", kind := 0 }]]).eff .get tgt2 = true ∧
-    allowed (AccessDecl.run exRegQ [.writeI 0 0 [inM2], .writeO 0 0 [{ typ := "OY", kind := 0 }]]).eff .addFinalizer tgt2 = true ∧
-    allowed (AccessDecl.run exRegQ [.writeI 0 0 [inM2], .writeO 0 0 [{ typ := "OY", kind := 0 }]]).eff .create
-      { ns := "n", typ := "OY", id := some "a" } = true ∧
-    Spec.Access.allowed (AccessDecl.run exRegQ [.writeI 0 0 [inM2], .writeO 0 0 [{ typ := "OY", kind := 0 }]]).decl .get tgt2 = false := by
+    ¬ Sound aliasQRules .q ∧
+    (AccessDecl.runWith aliasQRules (exRegQ aliasQRules) exProgQ).decl.inputs = [inP1] ∧
+    allowed (AccessDecl.runWith aliasQRules (exRegQ aliasQRules) exProgQ).eff .get tgt2 = true ∧
+    allowed (AccessDecl.runWith aliasQRules (exRegQ aliasQRules) exProgQ).eff .addFinalizer tgt2 = true ∧
+    allowed (AccessDecl.runWith aliasQRules (exRegQ aliasQRules) exProgQ).eff .create { ns := "n", typ := "OY", id := some "a" } = true ∧
+    Spec.Access.allowed (AccessDecl.runWith aliasQRules (exRegQ aliasQRules) exProgQ).decl .get tgt2 = false := by
+  refine ⟨fun h => absurd h.1 (by decide), ?_⟩
+  decide
+
+/-- the same program on the current source: nothing changes -/
+theorem q_clone_keeps_access :
+    allowed (AccessDecl.run (exRegQ genRules) exProgQ).eff .get tgt2 = false ∧
+    allowed (AccessDecl.run (exRegQ genRules) exProgQ).eff .create { ns := "n", typ := "OY", id := some "a" } = false := by
   decide
 
 end Cosi.C08D
